@@ -1,9 +1,17 @@
 #!/bin/bash
-# Run once after a fresh restore, offline: warms the Go build cache and builds the checker.
+# Run once after a fresh restore, offline: warms the Go build cache and builds the checkers
+# (every check command rebuilds them again from /repo's current working tree; this only makes that fast).
 set -e
 cd "$(dirname "$0")"
 . ./env.sh
 cp -f /repo/go.sum ./go.sum
 mkdir -p bin evidence replays
 go build -tags verif -o bin/vcheck ./cmd/vcheck
+# the C20 binary: package zygo rebuilt with the map-order seam (overlay generated from the current tree)
+go build -o bin/maporder ./tools/maporder
+rm -rf bin/mo; mkdir -p bin/mo
+bin/maporder /repo/zygo bin/mo > bin/mo/rewrite.log 2>&1
+go build -tags "verif maporder" -overlay bin/mo/overlay.json -o bin/vcheck-c20 ./cmd/vcheck
+# the command-line tool, used by C01 and C08 (they rebuild it themselves; this warms the cache)
+(cd /repo && go build -o /dev/null ./cmd/zygo)
 echo "setup ok"
